@@ -28,6 +28,8 @@ EXHAUSTIVE = False
 MODULES = ["m", "M", "m_x", "mXx", "pkg.mod"]
 # (identifiers may contain characters outside the Basic Multilingual Plane: U+20BB7 sorts after U+FFFF in UTF-8 byte order)
 QUALS = ["my_func", "myXfunc", "MY_FUNC", "my_func2", "Foo.bar", "foo", "Foo", "a%b", "a_b", "aXb", "a%", "a", "Foo.\U00020bb7x", "\U00020bb7y", "Foo.\uffffz"]
+# a qualname with a lone surrogate: the trace serialises, but the row cannot be bound as SQL text (UnicodeEncodeError, not an sqlite3.Error)
+UNBINDABLE = "broken\ud800name"
 PREFIXES = [None, None, "", "my_func", "my_", "my", "MY", "Foo", "Foo.", "foo", "F", "a%", "a_", "a", "%", "_", "myXfunc", "my_func2", "a%b", "Foo.\U00020bb7", "Foo.\uffff"]
 
 
@@ -53,8 +55,8 @@ def enum_configs(tier):
 
 def gen_trace(rng, bad_p=0.0):
     # rarely a function without a module (defined by exec() in a bare namespace: __module__ is None -> a NULL in the module column)
-    return {"m": rng.choice(MODULES) if rng.random() > 0.03 else None, "q": rng.choice(QUALS), "args": rng.randrange(5), "ret": rng.randrange(4), "yld": rng.randrange(3),
-            "bad": rng.random() < bad_p}
+    return {"m": rng.choice(MODULES) if rng.random() > 0.03 else None, "q": rng.choice(QUALS) if rng.random() > 0.015 else UNBINDABLE,
+            "args": rng.randrange(5), "ret": rng.randrange(4), "yld": rng.randrange(5), "bad": rng.random() < bad_p}
 
 
 def gen_batch(rng, kn):
@@ -76,6 +78,9 @@ def gen(rng, index, tier):
         if bad is not None:
             batch[bad]["bad"] = True
         prior = [[gen_trace(rng) for _ in range(rng.choice([0, 3, 40]))]]
+        for t in batch + prior[0]:
+            if t["q"] == UNBINDABLE:
+                t["q"] = "a"   # the enumeration is about interruption points of a well-formed batch
         return {"mode": "enum", "cache_size": cache, "batch": batch, "prior": prior, "vm_step": 1,
                 "kinds": ["abort", "kill", "image", "read", "write"], "only": None}
     kn = {
@@ -94,7 +99,7 @@ def gen(rng, index, tier):
         r = rng.random()
         if r < 0.40:
             batch = gen_batch(rng, kn)
-            op = {"op": "add", "actor": a, "batch": batch, "park_every": 0, "decisions": []}
+            op = {"op": "add", "actor": a, "batch": batch, "park_every": 0, "decisions": [], "via_logger": rng.random() < 0.3}
             if kn["faults"] and rng.random() < 0.6:
                 op["park_every"] = kn["vm_step"]
                 est = max(2, (len(batch) * 45) // kn["vm_step"])
@@ -104,7 +109,8 @@ def gen(rng, index, tier):
                     if k in ("write", "filter"):
                         d["actor"] = rng.randrange(kn["actors"])
                         if k == "write":
-                            d["batch"] = gen_batch(rng, dict(kn, batch_sizes=[1, 2, 3]))
+                            d["batch"] = gen_batch(rng, dict(kn, batch_sizes=[1, 2, 3, 5]))
+                            d["via_logger"] = rng.random() < 0.5
                         else:
                             d.update({"m": rng.choice(MODULES), "p": rng.choice(PREFIXES), "n": rng.choice([1, 2, 5, 2000])})
                     op["decisions"].append(d)
@@ -166,6 +172,7 @@ class World:
         self.evaluated = 0
         self.faults = collections.Counter()
         self.probes = collections.Counter()
+        self.sleepers = []
         self.log = []
         self.limited = set()
         self.compared_rows = 0
@@ -303,12 +310,19 @@ class World:
             other = self.actor(ai)
             if other is None:
                 return
-            r = other.call({"op": "add", "batch": d["batch"], "park_every": 0})
+            r = other.call({"op": "add", "batch": d["batch"], "park_every": 0, "via_logger": bool(d.get("via_logger"))}, auto_wake=False)
+            if "sleeping" in r:
+                # the second writer did not give up: it sleeps and will try again. It is woken once the parked writer is through.
+                self.sleepers.append((ai, other, d["batch"], where))
+                self.probes["second writer sleeps (retry loop) while the first holds the lock"] += 1
+                return
             if "err" in r:
                 if "locked" in r["err"]:
                     self.probes["second writer refused: database is locked"] += 1
                 elif ai in self.limited:
                     self.probes["add failed under disk-full"] += 1
+                elif any(s_.get("q") == UNBINDABLE and not s_.get("bad") for s_ in d["batch"]):
+                    self.probes["batch with a row that cannot be bound as SQL text was rejected as a whole"] += 1
                 else:
                     self.viol("C09.atomic", None, {"where": where}, "concurrent add failed unexpectedly: " + r["err"])
             else:
@@ -321,6 +335,34 @@ class World:
         return self.model + self._inflight
 
     def do_add(self, op, idx, enum_stop_after=None):
+        try:
+            return self._do_add(op, idx, enum_stop_after)
+        finally:
+            self.wake_sleepers()
+
+    def wake_sleepers(self):
+        """Writers that went to sleep inside add() while another writer held the lock: the lock is free now, let them finish."""
+        pending, self.sleepers = self.sleepers, []
+        for ai, other, batch, where in pending:
+            if not other.alive:
+                continue
+            other.send({"do": "wake"})
+            r = other.recv(60)
+            n = 0
+            while "sleeping" in r and n < 8:
+                n += 1
+                other.send({"do": "wake"})
+                r = other.recv(60)
+            unbindable = any(s_.get("q") == UNBINDABLE and not s_.get("bad") for s_ in batch)
+            if "err" in r:
+                if not ("locked" in r["err"] or ai in self.limited or unbindable):
+                    self.viol("C09.atomic", None, {"where": where + ":retry"}, "retried add failed unexpectedly: " + r["err"][:300])
+                self.check_raw(where + ":after-failed-retry", tolerate_locked=False, alt=self.model + collections.Counter(tuple(x) for x in r.get("expected", [])))
+            else:
+                self.model.update(tuple(x) for x in r["expected"])
+                self.check_raw(where + ":after-retry", tolerate_locked=False)
+
+    def _do_add(self, op, idx, enum_stop_after=None):
         ai = op["actor"]
         a = self.actor(ai)
         self._inflight = None
@@ -331,12 +373,15 @@ class World:
         for d in op.get("decisions") or []:
             decisions[d["at"]].append(d)
         last_at = max(decisions) if decisions else -1
-        a.send({"op": "add", "batch": op["batch"], "park_every": op.get("park_every") or 0})
+        a.send({"op": "add", "batch": op["batch"], "park_every": op.get("park_every") or 0, "via_logger": bool(op.get("via_logger"))})
         killed = False
         aborted = False
         where = "op%d" % idx
         while True:
             msg = a.recv(60)
+            if "sleeping" in msg:
+                a.send({"do": "wake"})
+                continue
             if "parked" not in msg:
                 break
             i = msg["parked"]
@@ -378,12 +423,15 @@ class World:
             return
         expected = [tuple(x) for x in msg.get("expected", [])]
         full = self.model + collections.Counter(expected)  # self.model may have grown by a concurrent writer
+        unbindable = any(s_.get("q") == UNBINDABLE and not s_.get("bad") for s_ in op["batch"])
         if "err" in msg:
-            fault_active = aborted or ai in self.limited or "locked" in msg["err"]
+            fault_active = aborted or ai in self.limited or "locked" in msg["err"] or unbindable
             if not fault_active:
                 self.viol("C09.atomic", None, {"where": where, "err": msg["err"][:200]}, "add raised with no fault active: " + msg["err"][:300])
             if "locked" in msg["err"]:
                 self.probes["add refused: database is locked"] += 1
+            if unbindable and "Unicode" in msg["err"]:
+                self.probes["batch with a row that cannot be bound as SQL text was rejected as a whole"] += 1
             if ai in self.limited:
                 self.probes["add failed under disk-full"] += 1
             res = self.check_raw(where + ":after-failed-add", tolerate_locked=False, alt=full)
@@ -558,6 +606,9 @@ def run_enum(plan):
         n = 0
         while True:
             msg = a.recv(60)
+            if "sleeping" in msg:
+                a.send({"do": "wake"})
+                continue
             if "parked" not in msg:
                 break
             n += 1
